@@ -116,12 +116,14 @@ func DigestPowershell(r io.Reader, style PsSigStyle, hash crypto.Hash) (*PsDiges
 		}
 		if line == first {
 			// remove EOL from previous line
-			if isUtf16 {
+			if isUtf16 && len(saved) >= 4 {
 				saved = saved[:len(saved)-4]
 				sigSize = 4
-			} else {
+			} else if !isUtf16 && len(saved) >= 2 {
 				saved = saved[:len(saved)-2]
 				sigSize = 2
+			} else {
+				return nil, errors.New("malformed powershell signature")
 			}
 			// count the size of the signature
 			sigSize += int64(len(line))
